@@ -53,6 +53,12 @@ struct Base { id: usize }
 struct SpecLayer(Vec<u8>, Option<LevelFilter>);
 type RHandle = tracing_subscriber::reload::Handle<SpecLayer>;
 static RHANDLES: Mutex<Option<HashMap<usize, RHandle>>> = Mutex::new(None);
+/// every value a reloadable collector has had, oldest first (appended right after the real assignment, so it may lag the
+/// real value by one entry, never lead it) — readable without the reload lock
+static VALUES: Mutex<Option<HashMap<usize, Vec<Vec<u8>>>>> = Mutex::new(None);
+static LOST: Mutex<Vec<String>> = Mutex::new(Vec::new());
+fn values_len(c: usize) -> usize { VALUES.lock().unwrap().as_ref().and_then(|m| m.get(&c).map(|v| v.len())).unwrap_or(0) }
+fn push_value(c: usize, v: Vec<u8>) { VALUES.lock().unwrap().get_or_insert_with(HashMap::new).entry(c).or_default().push(v); }
 impl Base {
     fn accepts(&self, i: usize) -> bool {
         let h = RHANDLES.lock().unwrap().as_ref().and_then(|m| m.get(&self.id).cloned());
@@ -89,6 +95,7 @@ impl<C: Collect> tracing_subscriber::Subscribe<C> for SpecLayer {
 fn mk_reloadable(id: usize, spec: &str) -> Dispatch {
     use tracing_subscriber::subscribe::CollectExt;
     let (v, h) = parse_spec(spec);
+    push_value(id, v.clone());
     let (layer, handle) = tracing_subscriber::reload::Subscriber::new(SpecLayer(v, h));
     RHANDLES.lock().unwrap().get_or_insert_with(HashMap::new).insert(id, handle);
     Dispatch::new(Base { id }.with(layer))
@@ -156,7 +163,7 @@ fn yield_at(name: &str) {
 
 type Handles = Arc<Mutex<HashMap<usize, Dispatch>>>;
 
-fn run_thread(t: usize, prog: Vec<Vec<String>>, dflt: Option<Dispatch>, handles: Handles) {
+fn run_thread(t: usize, prog: Vec<Vec<String>>, dflt: Option<Dispatch>, dflt_id: Option<usize>, handles: Handles) {
     WORKER.with(|w| w.set(Some(t)));
     if FREE.load(std::sync::atomic::Ordering::SeqCst) { while !GO.load(std::sync::atomic::Ordering::SeqCst) { std::hint::spin_loop(); } }
     let body = || {
@@ -164,7 +171,24 @@ fn run_thread(t: usize, prog: Vec<Vec<String>>, dflt: Option<Dispatch>, handles:
             OPIDX.with(|o| o.set(i));
             yield_at("op");
             match op[0].as_str() {
-                "hit" => pool::hit(op[1].parse().unwrap()),
+                "hit" => {
+                    let cs: usize = op[1].parse().unwrap();
+                    // a reloadable default collector: an emission racing with reloads is judged by one of the values the
+                    // collector has between its start and its end — if they ALL accept it, it must be delivered
+                    let watch = dflt_id.filter(|c| values_len(*c) > 0);
+                    let (from, before) = match watch { Some(c) => (values_len(c).saturating_sub(1), LOG.lock().unwrap().iter().filter(|x| **x == c).count()), None => (0, 0) };
+                    pool::hit(cs);
+                    if let Some(c) = watch {
+                        let after = LOG.lock().unwrap().iter().filter(|x| **x == c).count();
+                        let all_accept = VALUES.lock().unwrap().as_ref().unwrap()[&c][from..].iter().all(|v| matches!(v[cs], b'a' | b't'));
+                        // (the list may lag the real value by one entry: give a reload in flight the time to append it)
+                        if all_accept && after == before {
+                            std::thread::sleep(Duration::from_millis(20));
+                            let still = VALUES.lock().unwrap().as_ref().unwrap()[&c][from..].iter().all(|v| matches!(v[cs], b'a' | b't'));
+                            if still { LOST.lock().unwrap().push(format!("{}:{}", c, cs)); }
+                        }
+                    }
+                }
                 "new" => {
                     let c: usize = op[1].parse().unwrap();
                     let d = Dispatch::new(mk(c, &op[2]));
@@ -175,12 +199,18 @@ fn run_thread(t: usize, prog: Vec<Vec<String>>, dflt: Option<Dispatch>, handles:
                     let d = mk_reloadable(c, &op[2]);
                     handles.lock().unwrap().insert(c, d);
                 }
-                "rl" => {
+                "rl" | "rlb" => {
                     // the real thing: lock, assign, unlock (yield point `modify:unlocked`), rebuild the interest cache
                     let c: usize = op[1].parse().unwrap();
                     let h = RHANDLES.lock().unwrap().as_ref().unwrap().get(&c).expect("reloadable collector").clone();
                     let (v, hint) = parse_spec(&op[2]);
-                    let _ = h.reload(SpecLayer(v, hint));
+                    let v2 = v.clone();
+                    if op[0] == "rlb" {
+                        // the same through `modify`, with a scheduling point INSIDE the write-locked section
+                        let _ = h.modify(|l| { *l = SpecLayer(v, hint); push_value(c, v2); yield_at("modify:inside"); });
+                    } else {
+                        let _ = h.modify(|l| { *l = SpecLayer(v, hint); push_value(c, v2); });
+                    }
                 }
                 "sgd" => {
                     let c: usize = op[1].parse().unwrap();
@@ -252,7 +282,8 @@ fn main() {
         let prog = parse_ops(ops);
         for op in &prog { if op[0] == "hit" { let c = op[1].parse().unwrap(); if !used_cs.contains(&c) { used_cs.push(c); } } }
         let h = handles.clone();
-        joins.push(std::thread::spawn(move || run_thread(t, prog, dflt, h)));
+        let dflt_id: Option<usize> = if !p.is_empty() && p[0].starts_with('@') { p[0][1..].parse().ok() } else { None };
+        joins.push(std::thread::spawn(move || run_thread(t, prog, dflt, dflt_id, h)));
     }
     // ---- the scheduler
     let step_timeout = Duration::from_millis(40);
@@ -334,7 +365,9 @@ fn main() {
         obs.push(format!("gd:{}", who.map(|c| c.to_string()).unwrap_or_else(|| "-".into())));
     }
     let wrong = WRONG.lock().unwrap().clone();
-    println!("{}{} ;; {} ;; {}", status, if wrong.is_empty() { String::new() } else { format!(" wrong-delivery={}", wrong.join("+")) },
+    let lost = LOST.lock().unwrap().clone();
+    println!("{}{}{} ;; {} ;; {}", status, if wrong.is_empty() { String::new() } else { format!(" wrong-delivery={}", wrong.join("+")) },
+             if lost.is_empty() { String::new() } else { format!(" lost-delivery={}", lost.join("+")) },
              if log.is_empty() { "-".into() } else { log.join(" ") }, if obs.is_empty() { "-".into() } else { obs.join(" ") });
     if status != "ok" { std::process::exit(0); }
 }
